@@ -32,6 +32,7 @@ var lockGuards = []guardSpec{
 	{"proxycore", "connPool", "conns", "connsMu"},
 	{"proxycore", "ClientConn", "closing", "closingMu"},
 	{"proxycore", "Cluster", "outageTime", "outageMu"},
+	{"proxycore", "Cluster", "pendingEvents", "eventsMu"},
 }
 
 // functions that are only called with a lock of their receiver held (every call site is checked)
